@@ -2,12 +2,12 @@ package sim
 
 import (
 	"context"
-	"sync"
 	"crypto/sha256"
 	"encoding/hex"
 	"encoding/json"
 	"fmt"
 	"os"
+	"sync"
 
 	"cosmossdk.io/log"
 
@@ -34,7 +34,7 @@ type BlockDigest struct {
 // the determinism replica (C18) re-executes it on fresh application instances.
 type ChainRecord struct {
 	ChainID        string                 `json:"chain_id"`
-	Kind           string                 `json:"kind"` // provider | consumer
+	Kind           string                 `json:"kind"`    // provider | consumer
 	Tainted        bool                   `json:"tainted"` // state was written outside ABCI (hostile injection): not replayable
 	Init           []byte                 `json:"init"`
 	InitValidators []abci.ValidatorUpdate `json:"-"`
